@@ -66,7 +66,7 @@ fn case_parked(ctl: &Arc<Ctl>, out: &mut CaseOut) {
     }
 }
 
-fn stress(ctl: &Arc<Ctl>, threads: usize, per_thread: usize, counters: i64, out: &mut CaseOut) {
+fn stress(ctl: &Arc<Ctl>, threads: usize, per_thread: usize, counters: i64, maintenance: bool, out: &mut CaseOut) {
     let dir = ScratchDir::new("c09s");
     let Ok(db) = CDb::open(&dir.db_base()) else {
         out.inconclusive("open");
@@ -106,8 +106,30 @@ fn stress(ctl: &Arc<Ctl>, threads: usize, per_thread: usize, counters: i64, out:
             }
         }));
     }
+    // maintenance on another thread while the writers run: compaction and checkpoint replace the
+    // published runs and must not lose a commit that lands while they wait for the writer lock
+    let stop = Arc::new(std::sync::atomic::AtomicBool::new(false));
+    let maint = if maintenance {
+        let (db, stop) = (db.clone(), stop.clone());
+        Some(std::thread::spawn(move || {
+            let mut n = 0u64;
+            while !stop.load(Ordering::SeqCst) {
+                let _ = if n % 3 == 2 { db.checkpoint() } else { db.compact() };
+                n += 1;
+                std::thread::sleep(Duration::from_micros(300));
+            }
+            n
+        }))
+    } else {
+        None
+    };
     for h in hs {
         let _ = h.join();
+    }
+    stop.store(true, Ordering::SeqCst);
+    if let Some(m) = maint {
+        out.count("maintenance_operations_during_writes", m.join().unwrap_or(0));
+        out.cell(format!("stress+maintenance:threads={threads}"));
     }
     ctl.noise.store(0, Ordering::Relaxed);
     ctl.lock_monitoring.store(false, Ordering::Relaxed);
@@ -156,7 +178,7 @@ pub fn main(args: &Args) -> Report {
         &args.tier,
         args.seed,
         "exploration",
-        "N threads issue ndb_execute_write('MATCH (c:Ctr {k}) SET c.v = c.v + 1') and MERGE (:U {k}) on few keys; conservation oracle: final counter value == acknowledged increments (every serial order gives that), one node per merged key; systematic part parks one statement between its snapshot and the writer lock while another statement completes; a cell is a schedule family",
+        "N threads issue ndb_execute_write('MATCH (c:Ctr {k}) SET c.v = c.v + 1') and MERGE (:U {k}) on few keys, in half of the rounds while another thread keeps calling ndb_compact / ndb_checkpoint; conservation oracle: final counter value == acknowledged increments (every serial order gives that), one node per merged key; systematic part parks one statement between its snapshot and the writer lock while another statement completes; a cell is a schedule family",
     );
     rep.assume("statements that returned an error are excluded from the expected count; all threads are joined before the final read");
     let ctl = Ctl::new();
@@ -166,10 +188,10 @@ pub fn main(args: &Args) -> Report {
     for _ in 0..if thorough { 60 } else { 10 } {
         case_parked(&ctl, &mut out);
     }
-    let rounds = if thorough { 40 } else { 6 };
+    let rounds = if thorough { 40 } else { 8 };
     for r in 0..rounds {
         let threads = [2, 4, 8, 16][r % 4];
-        stress(&ctl, threads, if thorough { 60 } else { 24 }, 1 + (r as i64 % 3), &mut out);
+        stress(&ctl, threads, if thorough { 60 } else { 24 }, 1 + (r as i64 % 3), r % 2 == 1, &mut out);
     }
     Ctl::uninstall();
     out.samples.push(json!({"statement": "MATCH (c:Ctr {k: 1}) SET c.v = c.v + 1", "threads": [2, 4, 8, 16], "oracle": "final c.v == number of Ok results"}));
